@@ -666,10 +666,16 @@ func c03Variant(r *gen.Rand, c *C03Case, name string) *C03Case {
 		})
 		prev := ""
 		var top string
+		extLike := r.Chance(0.4)
 		for k, i := range chain {
 			f := &n.World.Files[i]
 			e := procsim.Ext(f.Path)
 			nm := fmt.Sprintf("ren%d", k)
+			if extLike && k > 0 && k < len(chain)-1 {
+				// a layer NAME whose last component is spelled like a format:
+				// "ren1.json" is a layer name, stored in ren1.json.<ext>
+				nm += "." + r.Pick("json", "yaml", "toml", "yml", "jsonl")
+			}
 			f.Path = filepath.Join(filepath.Dir(f.Path), nm+"."+e)
 			if m, ok := f.Docs[0].V.(map[string]any); ok && prev != "" {
 				m["$parent"] = prev
